@@ -9,7 +9,7 @@ EXPLANATION = ("R-SIB sibling agreement over the io event sources (enumerated fr
                "front-ends: reset before the early syscall, no second clear before yielding, done() after the yield. R-ORDER selector "
                "sets io_flag before taking the coroutine and schedules on its own worker; epoll registration flag sets; R-MO floors; "
                "thread path stores the result before unparking")
-EXPLANATION_2 = ('would-block classification in every done() and front-end (re-check/yield only after EAGAIN, EAGAIN never returned); one data syscall per completion for sources serving datagram sockets; early attempts through CoIo::inner recognised; add/mod/del_socket, io cancel set/clear, del_io_timer forwarding')
+EXPLANATION_2 = ('would-block classification in every done() and front-end (re-check/yield only after EAGAIN, EAGAIN never returned); one data syscall per completion for sources serving datagram sockets; early attempts through CoIo::inner recognised; add/mod/del_socket, io cancel set/clear, del_io_timer forwarding; run budget of the worker (F32); thread io parks in a loop on its done flag (F35)')
 NOT_DECIDED = "the kernel; payload integrity and stream order (the buffer/count pass-through is not tracked); readiness timing"
 CONFIGS_QUICK = ["default"]
 CONFIGS_THOROUGH = ["default", "nosteal", "bare"]
@@ -316,3 +316,4 @@ def check(ctx):
     shared.io_helper_forwarding(ctx)
     shared.registered_sockets_are_nonblocking(ctx)
     shared.worker_run_budget_rules(ctx)
+    shared.thread_park_in_loop(ctx)
